@@ -113,7 +113,7 @@ func Run(t *testing.T, c *Case, done func(*Result)) {
 		MaxSteps: c.MaxSteps,
 	}
 	if cfg.MaxSteps == 0 {
-		cfg.MaxSteps = 1500000
+		cfg.MaxSteps = 3000000
 	}
 	cfg.IdleLimit = 5000 * time.Hour // clock jumps while the store is stopped are legitimate; liveness is judged per operation
 	cfg.OnEnd = func(s *verifsim.Sim) { done(r.finish(s)) }
